@@ -133,6 +133,16 @@ def run(ctx):
         if special or chunk[0] < 0x3100 or not ctx.quick or (k // 64) % 23 == 0:
             ctx.corr('teletype.addTextToElement (code point sweep)', {'codepoints': chunk}, d.call('tt_encode', sx_str(sx)), canon_children(p)); n_corr += 1
     ctx.exhaustive.append('every code point except SP/TAB/LF (1,114,109), 64 per string: round trip on the real code (%d strings); encoder output vs model on %d of them' % (n_or, n_corr))
+    # long runs: a count is a count, however large
+    for n in (100, 1023, 1024, 1025, 1026, 4097, 20000):
+        for sx_ in ('a' + ' ' * n + 'b', ' ' * n, 'x' + '\n' * min(n, 2000) + 'y', '\t' * min(n, 2000)):
+            one(sx_)
+        from odf import text as T_
+        p_ = T_.P(); p_.addElement(T_.S(c=n), check_grammar=False); p_.addText('z')
+        got_ = teletype.extractText(p_); ctx.oracle_cases += 1
+        if got_ != ' ' * n + 'z':
+            ctx.violation('direct-roundtrip', {'text:s count': n}, len(got_) - 1, n, {'chars': ['long-run']})
+    ctx.exhaustive.append('runs of 100 ... 20000 blanks, line feeds and tabs')
     ctx.sample({'string': 'a  b\t c\n', 'children': canon_children_of('a  b\t c\n')})
     # ---- correspondence 2: decoder on arbitrary child trees, appended encoding ---
     for _ in range(600 if ctx.quick else 6000):
